@@ -74,13 +74,35 @@ class ScriptedSystemRandom(secrets.SystemRandom):
 class ScriptedRandomState(np.random.RandomState):
     """RandomState whose random()/geometric() are scripted (for Staircase, Bingham and seeded paths)."""
 
-    def __init__(self, uniforms=(), geometrics=(), seed=0):
+    def __init__(self, uniforms=(), geometrics=(), seed=0, normals=(), ints=()):
         super().__init__(seed)
         self.u = list(uniforms)
         self.g = list(geometrics)
+        self.normals = list(normals)        # scripted standard_normal() draws (additive: Gaussian's numpy back-end)
+        self.ints = list(ints)              # scripted randint() draws (Snapping's numpy back-end)
         self.n_uniform = 0
         self.n_geom = 0
+        self.n_normal = 0
+        self.n_int = 0
         self.log = []
+
+    def standard_normal(self, size=None):
+        n = 1 if size is None else int(np.prod(size))
+        if self.n_normal + n > len(self.normals):
+            raise ScriptExhausted("normal script exhausted")
+        out = self.normals[self.n_normal:self.n_normal + n]
+        self.n_normal += n
+        self.log.append(("standard_normal", size))
+        return out[0] if size is None else np.array(out, dtype=float).reshape(size)
+
+    def randint(self, low, high=None, size=None, dtype=int):
+        i = self.n_int
+        self.n_int += 1
+        self.log.append(("randint", low, high))
+        if i >= len(self.ints):
+            raise ScriptExhausted("int script exhausted")
+        lo, hi = (0, low) if high is None else (low, high)
+        return lo + self.ints[i] % (hi - lo)
 
     def random(self, size=None):
         if size is None:
